@@ -4,7 +4,7 @@ through tuples and nested code objects).  argv: <list.json> <out.jsonl>
 list.json: [{"id":..., "pyc": path}]
 out line:  {"id", "ok": bool, "err": str, "trailing": int, "code": canon}
 canon: ["int", "decimal"] | ["bool", b] | ["float", "<le bytes hex>"] | ["str", "<utf-8 hex, surrogatepass>"] | ["bytes", hex]
-     | ["none"] | ["tuple", [canon]] | ["code", name, [canon of co_consts], [names], [varnames], [freevars], [cellvars], filename] | ["other", repr]"""
+     | ["none"] | ["tuple", [canon]] | ["code", name, [canon of co_consts], [names], [varnames], [freevars], [cellvars], filename, {scalar fields, code hex}] | ["other", repr]"""
 import io
 import json
 import marshal
@@ -34,7 +34,9 @@ def canon(v):
         return ["tuple", [canon(x) for x in v]]
     if isinstance(v, types.CodeType):
         return ["code", shex(v.co_name), [canon(x) for x in v.co_consts], [shex(n) for n in v.co_names], [shex(n) for n in v.co_varnames],
-                [shex(n) for n in v.co_freevars], [shex(n) for n in v.co_cellvars], shex(v.co_filename)]
+                [shex(n) for n in v.co_freevars], [shex(n) for n in v.co_cellvars], shex(v.co_filename),
+                {"argcount": v.co_argcount, "posonlyargcount": getattr(v, "co_posonlyargcount", 0), "kwonlyargcount": v.co_kwonlyargcount,
+                 "stacksize": v.co_stacksize, "flags": v.co_flags, "firstlineno": v.co_firstlineno, "code": v.co_code.hex()}]
     return ["other", repr(v)[:80]]
 
 
